@@ -45,6 +45,14 @@ func (r *Run) fault(k CallKey) error {
 		return nil // not a resolver failure: the list accessor fails later
 	case FaultExt:
 		return &ggql.Error{Base: fmt.Errorf("%w ext at %s", ErrInjected, k), Extensions: map[string]interface{}{"code": "E1"}}
+	case FaultSecond:
+		if r.Seen == nil {
+			r.Seen = map[CallKey]int{}
+		}
+		if r.Seen[k]++; r.Seen[k] == 2 {
+			return fmt.Errorf("%w at the second call of %s", ErrInjected, k)
+		}
+		return nil
 	case FaultValErr:
 		return fmt.Errorf("%w (with a value) at %s", ErrInjected, k)
 	case FaultWrapped:
